@@ -41,6 +41,23 @@ CLAIMED.update({
   ref="DESIGN.md 4/C19"),
 })
 
+CLAIMED.update({
+ "C06": dict(
+  text="Deductive proof of the nonce/epoch bookkeeping primitives: the account object's and StateDB's SetNonce/SetEpoch/GetNonce/GetEpoch/Epoch "
+       "are exact against the abstract ledger (nonce, aepoch, gepoch) over the cached objects. The one-step application rule in applyTxOnState is "
+       "listed in evidence when under contract; histories (reorgs) are not decided.",
+  note="Trusted: object cache of StateDB (A-cache: one object per address, distinct addresses distinct objects, dirty bookkeeping only in touch).",
+  ref="DESIGN.md 4/C06"),
+ "C12": dict(
+  text="Deductive no-panic proof (nil dereference, index, slice bounds, type assertion, division, explicit panic) for every per-type transaction "
+       "validator, the fee calculation and all attachment parsers, for ALL field values of a decoded transaction (nil recipient, nil amounts, "
+       "arbitrary payload bytes) against any well-formed application state; 1281 generated safety obligations, each discharged by SMT. "
+       "Found and fixed: validateActivationTx dereferenced a nil recipient (replayed on the real code).",
+  note="Trusted: crypto functions total, protobuf Unmarshal writes only its destination message, StateDB object cache (A-cache), validators-cache "
+       "queries total, tx serialisation. Not decided here: protocol message handlers, allocation proportionality (s2.Decode), hangs, libp2p, wasm.",
+  ref="DESIGN.md 4/C12"),
+})
+
 PENDING = {
 }
 
